@@ -99,7 +99,32 @@ class Scheduler(object):
 # ---------------------------------------------------------------------------
 # typed values (states, labels)
 
+class Obj(object):
+    """A state hashed and compared by identity (a user-defined class without
+    __eq__): legal as a Kripke state, and the one kind of value that
+    copy.deepcopy does not map to itself."""
+
+    def __init__(self, name):
+        self.name = name
+
+    def __repr__(self):
+        return 'Obj({})'.format(self.name)
+
+    __str__ = __repr__
+
+
+_OBJ_REG = {}
+
+
+def reset_objects():
+    _OBJ_REG.clear()
+
+
 def enc_value(v):
+    if isinstance(v, Obj):
+        if _OBJ_REG.get(v.name) is not v:
+            return {'alien_obj': v.name}
+        return {'o': v.name}
     if isinstance(v, bool):
         return {'b': v}
     if isinstance(v, int):
@@ -121,6 +146,10 @@ def dec_value(e):
     (k, v), = e.items()
     if k in ('b', 'i', 's', 'f', 'n'):
         return v
+    if k == 'o':
+        if v not in _OBJ_REG:
+            _OBJ_REG[v] = Obj(v)
+        return _OBJ_REG[v]
     if k == 't':
         return tuple(dec_value(x) for x in v)
     if k == 'fs':
